@@ -687,7 +687,7 @@ def ch_e2e(ctx) -> Channel:
     rng = ctx.rng("mps_e2e")
     lines, recs, tl_lines, tl_recs = [], [], [], []
     with appboot.Clock("2023-01-01T00:00:00Z") as clock:
-        for i in range(ctx.scale(18, 90)):
+        for i in range(ctx.scale(14, 70)):
             defn = c12_lib.gen_inside(rng, app, n_periods=[1, 2, 3, 4, 2, 3, 2][i % 7])
             c12_lib.create(app, defn)
             try:
